@@ -938,3 +938,212 @@ def minishard_encode_before_park(repo, col):
                 "" if ok else "payload `%s` reaches the shard without passing "
                 "shard_spec.data_encoder: with gzip data encoding the stored "
                 "bytes are not decodable" % norm(val), node=node)
+
+
+# ---------------------------------------------------------------------
+# more small closed-world rules
+# ---------------------------------------------------------------------
+def rgb_split_idiom(repo, col):
+    """Structured (R, G, B) voxels become a trailing channel axis by stacking
+    the fields; re-interpreting the buffer with .view() depends on the memory
+    order of the array (nibabel returns Fortran order)."""
+    rule = "E-SPEC.rgb-split"
+    fn = None
+    m = repo.module("volume_reader")
+    for cand in ("split_rgb_channels", "volume_file_to_precomputed"):
+        if cand in m.functions and "is_rgb" in norm(m.functions[cand].node):
+            fn = m.functions[cand]
+            break
+    if fn is None:
+        raise AnalysisError("anchor vanished: RGB handling in volume_reader")
+    views = [c for c in calls_in(fn.node) if isinstance(c.func, ast.Attribute)
+             and c.func.attr == "view"]
+    col.add(rule, fn, "no buffer re-interpretation (.view)", not views,
+            "" if not views else "structured voxels are re-interpreted with "
+            ".view(): this raises for Fortran-ordered arrays and otherwise "
+            "expands the wrong axis", node=views[0] if views else None)
+    stacks = [c for c in calls_in(fn.node)
+              if (call_name(c) or "").endswith("np.stack")]
+    ok = False
+    for c in stacks:
+        ax = kwarg(c, "axis")
+        if ax is not None and const_int(ax) == -1 and c.args and \
+                ".dtype.names" in norm(c.args[0]):
+            ok = True
+    col.add(rule, fn, "np.stack([a[name] for name in a.dtype.names], axis=-1)",
+            ok, "" if ok else "channels are not built by stacking the fields "
+            "along a new last axis", undecided=not ok and not views)
+
+
+def cast_before_write(repo, col, sites):
+    """sites: [(module, qualname, dtype name)]: the array handed to
+    write_chunk is cast with casting='equiv' to the dataset dtype (a silent
+    unsafe cast would hide a missing conversion)."""
+    rule = "E-ORDER.cast-before-write"
+    for ms, qn in sites:
+        fn = repo.func(ms, qn)
+        calls = [c for c in calls_in(fn.node) if isinstance(c.func, ast.Attribute)
+                 and c.func.attr == "write_chunk"]
+        if not calls:
+            raise AnalysisError("anchor vanished: write_chunk in %s" % fn.key)
+        for c in calls:
+            a = c.args[0] if c.args else None
+            ok = isinstance(a, ast.Call) and isinstance(a.func, ast.Attribute) \
+                and a.func.attr == "astype" and kwarg(a, "casting") is not None \
+                and kwarg(a, "casting").value == "equiv"
+            col.add(rule, fn, norm(a)[:60] if a is not None else "-", ok,
+                    "" if ok else "chunk is written without an 'equiv' cast "
+                    "to the dataset dtype", node=c)
+
+
+def empty_minishard_guard(repo, col):
+    """An unused minishard has an empty index (start == end): the reader must
+    not index element 0 of it."""
+    rule = "E-EXC.B.empty-index"
+    fn = repo.func("sharded_base", "ShardCMC.populate_minishard_dict")
+    cfg = fn.cfg()
+    owner = enclosing_stmt_map(fn.node)
+    sites = [n for n in walk_local(fn.node) if isinstance(n, ast.Subscript)
+             and isinstance(n.ctx, ast.Load) and const_int(n.slice) == 0
+             and "minishard_index" in norm(n.value)]
+    if not sites:
+        col.add(rule, fn, "minishard_index[0]", True, "first-id lookup not "
+                "in the recognised form", undecided=True)
+        return
+    defs = local_defs(fn.node)
+    for s in sites:
+        sn = cfg.node_of(owner.get(id(s)))
+        ok = False
+        for st in stmts_of(fn.node):
+            if isinstance(st, ast.If) and st.body and isinstance(
+                    st.body[-1], (ast.Continue, ast.Raise, ast.Return)):
+                t = norm(st.test)
+                if ("length" in t or "len(" in t or "num_chunks" in t or
+                        "end" in t) and ("== 0" in t or "not " in t or
+                                         "==" in t or "< 1" in t):
+                    gn = cfg.node_of(st)
+                    if gn is not None and sn is not None and \
+                            gn.id in cfg.dominators()[sn.id]:
+                        ok = True
+        col.add(rule, fn, norm(s), ok, "empty (unused) minishards are skipped "
+                "before their first id is read" if ok else
+                "element 0 of a minishard index is read without checking that "
+                "the minishard is non-empty: a shard with an unused minishard "
+                "raises IndexError and none of its chunks can be read",
+                node=s)
+
+
+def convert_loop_flow(repo, col):
+    """convert_chunks: every destination chunk is read -> transformed ->
+    written; all destination scales are visited; the source is only read."""
+    rule = "E-ORDER.convert"
+    fn = repo.func("scripts.convert_chunks", "convert_chunks_for_scale")
+    defs = local_defs(fn.node)
+    wc = [c for c in calls_in(fn.node) if isinstance(c.func, ast.Attribute)
+          and c.func.attr == "write_chunk"]
+    if not wc:
+        raise AnalysisError("anchor vanished: write_chunk in %s" % fn.key)
+    for c in wc:
+        clos = closure_names(fn.node, names_in(c.args[0]), defs)
+        srcs = " ".join(norm(d.value) for n in clos for d in defs.get(n, [])
+                        if d.value is not None)
+        ok = "chunk_reader.read_chunk(" in srcs and "chunk_transformer(" in srcs
+        col.add(rule, fn, "write_chunk(transform(read_chunk(...)))", ok,
+                "" if ok else "the written chunk does not derive from "
+                "chunk_transformer(chunk_reader.read_chunk(...))", node=c)
+        same = len(c.args) >= 3 and any(
+            norm(rc.args[1]) == norm(c.args[2]) and norm(rc.args[0]) == norm(c.args[1])
+            for rc in calls_in(fn.node) if isinstance(rc.func, ast.Attribute)
+            and rc.func.attr == "read_chunk" and len(rc.args) >= 2)
+        col.add(rule, fn, "same key and coordinates read and written", same,
+                "" if same else "chunk is written under a key / coordinates "
+                "other than those it was read from", node=c)
+    # methods used on reader / writer
+    allowed_r = {"read_chunk", "scale_is_lossy", "info", "scale_info"}
+    allowed_w = {"write_chunk", "info", "scale_info"}
+    for recv, allowed, what in (("chunk_reader", allowed_r, "source"),
+                                ("chunk_writer", allowed_w, "destination")):
+        used = {n.attr for n in walk_local(fn.node) if isinstance(n, ast.Attribute)
+                and isinstance(n.value, ast.Name) and n.value.id == recv}
+        extra = used - allowed
+        bad = extra & {"write_chunk", "store_chunk", "store_file"} if \
+            what == "source" else set()
+        col.add(rule, fn, "%s used through %s" % (recv, sorted(used)),
+                not extra, "" if not extra else
+                ("the source dataset is written to (%s)" % sorted(bad)) if bad
+                else "%s is accessed through %s, which bypasses the decode -> "
+                "convert -> encode path" % (recv, sorted(extra)),
+                undecided=bool(extra) and not bad)
+    drv = repo.func("scripts.convert_chunks", "convert_chunks")
+    t = norm(drv.node)
+    ok = "for scale_index in reversed(range(len(dest_info['scales'])))" in t or \
+        "for scale_index in range(len(dest_info['scales']))" in t
+    col.add(rule, drv, "every destination scale converted", ok, "" if ok else
+            "not all destination scales are converted", undecided=not ok and
+            "scales" in t)
+    okr = "get_accessor_for_url(source_url)" in t.replace(" ", "").replace(
+        "\n", "") or "get_accessor_for_url( source_url )" in t or \
+        "get_accessor_for_url(source_url" in t.replace("( ", "(")
+    src_stores = [c for c in calls_in(drv.node) if "source_accessor" in
+                  norm(c.func) and isinstance(c.func, ast.Attribute)
+                  and c.func.attr.startswith("store")]
+    col.add(rule, drv, "source accessor never stored to", not src_stores,
+            "" if not src_stores else "the source accessor is written to")
+    tr = "get_chunk_dtype_transformer(source_info['data_type'], " \
+        "dest_info['data_type'])" in t
+    col.add(rule, drv, "transformer(source type -> destination type)", tr,
+            "" if tr else "dtype transformer is not built from the source and "
+            "destination data types", undecided=not tr)
+
+
+def downscaler_templates(repo, col):
+    rule = "E-SPEC.downscale"
+    mj = repo.func("downscaling", "MajorityDownscaler.downscale")
+    t = norm(mj.node)
+    ok = "labels, counts = np.unique(block.flat, return_counts=True)" in t and \
+        "labels[np.argmax(counts)]" in t
+    col.add(rule, mj, "labels[argmax(counts)] of np.unique(block)", ok,
+            "most frequent label; np.unique sorts, argmax takes the first "
+            "maximum, so ties go to the smallest label" if ok else
+            "majority vote is not labels[np.argmax(counts)] over "
+            "np.unique(block, return_counts=True)", undecided=not ok)
+    okb = all(("%sd:%sd + downscaling_factors[%d]" % (a, a, k)) in t
+              for a, k in (("z", 2), ("y", 1), ("x", 0)))
+    col.add(rule, mj, "block = chunk[t, zd:zd+Dz, yd:yd+Dy, xd:xd+Dx]", okb,
+            "" if okb else "source block of an output voxel is not the "
+            "factor-sized block at its origin", undecided=not okb)
+    st = repo.func("downscaling", "StridingDownscaler.downscale")
+    t = norm(st.node)
+    oks = "chunk[:, ::downscaling_factors[2], ::downscaling_factors[1], " \
+        "::downscaling_factors[0]]" in t
+    col.add(rule, st, "chunk[:, ::Dz, ::Dy, ::Dx]", oks, "first voxel of each "
+            "block" if oks else "striding is not chunk[:, ::Dz, ::Dy, ::Dx]",
+            undecided=not oks)
+    for cls in ("StridingDownscaler", "AveragingDownscaler",
+                "MajorityDownscaler"):
+        fn = repo.func("downscaling", cls + ".downscale")
+        t = norm(fn.node)
+        okc = "if not self.check_factors(downscaling_factors): raise " \
+            "NotImplementedError" in t
+        col.add(rule, fn, "unsupported factors raise", okc, "" if okc else
+                "%s no longer rejects unsupported factors" % cls)
+    av = repo.func("downscaling", "AveragingDownscaler.check_factors")
+    oka = "all((f in (1, 2) for f in downscaling_factors))" in norm(av.node)
+    col.add(rule, av, "averaging supports factors 1 and 2 only", oka,
+            "" if oka else "averaging downscaler accepts factors it does not "
+            "implement", undecided=not oka)
+    ini = repo.func("downscaling", "AveragingDownscaler.__init__")
+    t = norm(ini.node)
+    okp = "self.padding_mode = 'edge'" in t and \
+        "self.padding_mode = 'constant'" in t and \
+        "'constant_values': outside_value" in t
+    col.add(rule, ini, "edge padding, or constant padding with the outside "
+            "value", okp, "" if okp else "border padding modes changed",
+            undecided=not okp)
+    gd = repo.func("downscaling", "get_downscaler")
+    t = norm(gd.node)
+    okg = "if info['type'] == 'image': return get_downscaler('average'" in t \
+        and "return get_downscaler('stride'" in t
+    col.add(rule, gd, "auto = average for images, stride for segmentations",
+            okg, "" if okg else "'auto' no longer resolves from info['type']",
+            undecided=not okg)
